@@ -38,6 +38,12 @@ RULE = ("generated: per communicator size R in 1..8 a history = initial placemen
         "gather_to_vector(), size(); a dump of every rank's vector after each; tagged_bag histories = two tagged bags filled to different levels "
         "from several ranks, visits and erases through the returned tags from other ranks, swap of the two bags followed by further inserts / visits / "
         "erases in both, all_gather, size; a case = (R, layout, routing, buffer, schedule seed, script); "
+        "two containers of one type: every run holds two bags (two tagged bags) on the same communicator, the history switches between them "
+        "(and swaps them), each is judged against its own expected multiset and model state; "
+        "two communicators in one process: a quarter of the multi-rank cases (deterministic in the case index, recorded in the case) run a history "
+        "of the same kind through the same code on sub-communicators of another size built with MPI_Comm_split (world-rank parity, rank < n-1 versus "
+        "the last rank, or node parity — only splits that keep ygm::layout's uniform ranks-per-node) before the world run (a third of them after it); "
+        "every communicator's part is judged with the same oracle and model comparison; "
         "non-trivial = at least one item inserted")
 
 ROUTES = ["NONE", "NR", "NLNR"]
@@ -112,9 +118,10 @@ def gen_bag_case(rng, R, placement):
         elif k < 0.72:
             inserts(rng.choice(["rr-all-sources", "mixed", "one-rank-vector", "rr-one-source"]), rng.randrange(0, 2 * R + 2))
             ops += ["B", "D"]
-        elif k < 0.80:
+        elif k < 0.78:
             ops += ["S", "D", "T 1", "D", "T 0"]
-        elif k < 0.86:
+            cur = 0
+        elif k < 0.86:      # go on with the other bag (two bags of one type alive, work interleaved between them)
             cur = 1 - cur
             ops += [f"T {cur}", "D"]
         elif k < 0.90:
@@ -208,12 +215,102 @@ def run_real(binary, case, sim_seed=None, policy=None):
     env = {"YGM_COMM_ROUTING": case["routing"]}
     if case["buffer_kb"] is not None:
         env["YGM_COMM_BUFFER_SIZE_KB"] = case["buffer_kb"]
-    return C.run_sim(binary, [case["mode"], case["script"]], nodes=case["nodes"], ppn=case["ppn"], env=env,
+    args = [case["mode"], case["script"]]
+    sub = case.get("sub")
+    if sub:      # the same scenario code first (or afterwards) on a sub-communicator of another size, in the same process
+        args = ["sub", sub["split"], sub["order"], len(sub["scen"])]
+        for size, script in sorted(sub["scen"].items(), key=lambda kv: int(kv[0])):
+            args += [size, f"{case['mode']}|{script}"]
+        args.append(f"{case['mode']}|{case['script']}")
+    return C.run_sim(binary, args, nodes=case["nodes"], ppn=case["ppn"], env=env,
                      sim_seed=sim_seed or case["sim_seed"], policy=policy or case["policy"], want_log=False, timeout=120)
 
 
+class Sec:
+    """the part of a run's output that belongs to one communicator"""
+
+    def __init__(self, sr, outs):
+        self.verdict, self.stderr, self.blocked, self.outs = sr.verdict, sr.stderr, sr.blocked, outs
+
+
+def sub_groups(split, R):
+    """colour -> world ranks of that group (MPI_Comm_split with key = world rank)"""
+    g = {}
+    for r in range(R):
+        c = r % 2 if split == "parity" else ((r // int(split[7:])) % 2 if split.startswith("bynode:") else (0 if r < R - 1 else 1))
+        g.setdefault(c, []).append(r)
+    return g
+
+
+def add_sub(case, k, gen_script):
+    """deterministically give a quarter of the multi-rank cases the two-communicator dimension; gen_script(size) -> script for a
+    communicator of that size"""
+    R = case["ranks"]
+    if R < 2 or k % 4 != 3:
+        return
+    # ygm::layout assumes the same number of ranks on every node: only splits that keep the sub-communicator's layout uniform
+    nodes, ppn = case["nodes"], case["ppn"]
+    options = (["parity", "droplast"] if (nodes == 1 or ppn == 1) else (["parity"] if ppn % 2 == 0 else [])) + ([f"bynode:{ppn}"] if nodes >= 2 else [])
+    split = options[(k // 4) % len(options)]
+    sizes = sorted({len(v) for v in sub_groups(split, R).values()})
+    # every group runs the SAME scenario (written for the smallest group; ranks it names that a group lacks... do not occur, larger groups
+    # just have ranks that issue nothing): ygm_ptr hands out per-process indices and checks them collectively, so all ranks of the
+    # process set must construct the same number of containers before the world run
+    unit = gen_script(sizes[0])
+    case["sub"] = {"split": split, "order": "sub-first" if (k // 8) % 3 != 2 else "world-first",
+                   "scen": {str(z): unit for z in sizes}}
+
+
+def sections(case, sr):
+    """[(label, unit case, Sec)]: the world run and, with the two-communicator dimension, one entry per sub-communicator"""
+    R = case["ranks"]
+    sub = case.get("sub")
+    if not sub:
+        return [("world", case, Sec(sr, sr.outs))]
+    world, subs = {}, {}
+    for r in range(R):
+        cur = None
+        for l in sr.outs.get(r, []):
+            if l.startswith("@sub "):
+                _, c, srank, _ = l.split()
+                cur = subs.setdefault(int(c), {}).setdefault(int(srank), [])
+            elif l == "@world":
+                cur = world.setdefault(r, [])
+            elif cur is not None:
+                cur.append(l)
+    res = [("world", case, Sec(sr, world))]
+    for c, ranks in sorted(sub_groups(sub["split"], R).items()):
+        unit = dict(case, ranks=len(ranks), script=sub["scen"][str(len(ranks))])
+        res.append((f"sub-communicator colour {c} ({len(ranks)} of {R} ranks, {sub['split']}, {sub['order']})", unit, Sec(sr, subs.get(c, {}))))
+    return res
+
+
+def judge(case, sr, model_ok=True, world_tb_model=None):
+    """evaluate every communicator's part of the run: (oracle failures, correspondence failures, notes)"""
+    of, cf, notes = [], [], []
+    cid = cid_of(case)
+    for label, unit, sec in sections(case, sr):
+        if unit["mode"] == "bag":
+            o, c, n = evaluate_bag(unit, sec, model_ok)
+        else:
+            mo = world_tb_model if label == "world" and world_tb_model is not None else (C.model("bag", [model_line_tbag(unit)])[0] if model_ok else None)
+            o, c = evaluate_tbag(unit, sec, mo)
+            n = []
+        if label != "world":
+            for f in o + c:
+                f["what"] = f"[{label}] " + f["what"]
+                f["case"] = dict(cid, failed_in=label, detail={kk: vv for kk, vv in (f.get("case") or {}).items() if kk not in cid})
+        of += o; cf += c; notes += n
+        if sr.verdict != "ok":
+            break
+    return of, cf, notes
+
+
 def cid_of(case):
-    return {k: case[k] for k in ("mode", "ranks", "script", "nodes", "ppn", "routing", "buffer_kb", "sim_seed", "policy")}
+    cid = {k: case[k] for k in ("mode", "ranks", "script", "nodes", "ppn", "routing", "buffer_kb", "sim_seed", "policy")}
+    if case.get("sub"):
+        cid["sub"] = case["sub"]
+    return cid
 
 
 def fmt_bags(bags):
@@ -695,9 +792,15 @@ def run(tier, seed, model_ok=True):
                       ("one-rank-vector", 0), ("one-rank-vector", 1), ("subset", R)]
         for k in range(per_size):
             pl = placements[k] if k < len(placements) else (rng.choice(placements)[0], rng.randrange(0, 4 * R + 2))
-            cases.append(gen_bag_case(rng, R, pl))
+            case = gen_bag_case(rng, R, pl)
+            rng2 = random.Random(seed * 350377 + 1000 * R + k)      # separate stream: the world scenarios stay what they were
+            add_sub(case, k, lambda size, rng2=rng2, pl=pl: gen_bag_case(rng2, size, (pl[0], min(pl[1], 3 * size + 1)))["script"])
+            cases.append(case)
         for k in range(tb_per_size):
-            cases.append(gen_tbag_case(rng, R))
+            case = gen_tbag_case(rng, R)
+            rng2 = random.Random(seed * 350377 + 1000 * R + 500 + k)
+            add_sub(case, k, lambda size, rng2=rng2: gen_tbag_case(rng2, size)["script"])
+            cases.append(case)
     runs = C.pmap(lambda c: run_real(binary, c), cases)
     tb_cases = [(c, sr) for c, sr in zip(cases, runs) if c["mode"] == "tbag"]
     tb_model = C.model("bag", [model_line_tbag(c) for c, _ in tb_cases]) if (model_ok and tb_cases) else [None] * len(tb_cases)
@@ -706,20 +809,20 @@ def run(tier, seed, model_ok=True):
     def ev(pair):
         c, sr = pair
         if c["mode"] == "bag":
-            return evaluate_bag(c, sr, model_ok)
+            return judge(c, sr, model_ok)
         return None
 
     bag_results = C.pmap(ev, list(zip(cases, runs)))
     seen_sigs = set()
     for case, sr, br in zip(cases, runs, bag_results):
         res.evaluations += 1
-        of, cf, notes = br if br is not None else (evaluate_tbag(case, sr, next(tb_iter)) + ([],))
+        of, cf, notes = br if br is not None else judge(case, sr, model_ok, world_tb_model=next(tb_iter))
         for nt in notes:
             res.count(nt)
         if cf and not of and case["mode"] == "bag":
             for k in range(6):      # search around the disagreeing case for a failing input
                 alt = dict(case, sim_seed=case["sim_seed"] + 1 + k, policy=POLICIES[k % len(POLICIES)])
-                of2 = evaluate_bag(alt, run_real(binary, alt), model_ok=False)[0]
+                of2 = judge(alt, run_real(binary, alt), model_ok=False)[0]
                 if of2:
                     of = of2
                     break
@@ -740,6 +843,8 @@ def run(tier, seed, model_ok=True):
         res.count("routing=" + case["routing"])
         res.count("buffer_kb=" + str(case["buffer_kb"]))
         res.count("items", case["inserted"])
+        if case.get("sub"):
+            res.count("two-communicators:" + case["sub"]["split"].split(":")[0] + ":" + case["sub"]["order"])
         for op, name in (("R", "rebalances"), ("L", "local_shuffles"), ("G", "global_shuffles"), ("S", "swaps"), ("g", "gathers"), ("a", "gather_alls")):
             res.count(name, sum(1 for o in case["script"].split(";") if o.split()[0] == op))
         if case["mode"] == "bag" and 0 < case["inserted"] < case["ranks"]:
@@ -768,13 +873,10 @@ def replay(data):
     for r in range(case["ranks"]):
         print(r, sr.outs.get(r))
     try:
-        if case["mode"] == "bag":
-            of, cf, _ = evaluate_bag(case, sr, True)
-        else:
-            of, cf = evaluate_tbag(case, sr, C.model("bag", [model_line_tbag(case)])[0])
+        of, cf, _ = judge(case, sr, True)
     except Exception as ex:  # noqa: BLE001
         print("model unavailable:", ex)
-        of, cf = (evaluate_bag(case, sr, False)[:2] if case["mode"] == "bag" else evaluate_tbag(case, sr, None))
+        of, cf, _ = judge(case, sr, False)
     for f in of + cf:
         print("FAIL", f.get("signature") or f.get("relation"), f["what"])
     return not of and not cf
